@@ -430,7 +430,14 @@ pub fn suite_hide(out: &mut Out, tier: &str, rng: &mut Rng) {
     }
     // every secret length 0..72 (and around 2 x 64) on a two-block value: the MD5 pre-images
     // (6 + |secret| and 16 + |secret| octets) cross MD5's 55/56 and 64-octet boundaries on the way
-    let slens: Vec<usize> = (0..=260).collect();
+    let mut slens: Vec<usize> = (0..=260).collect();
+    // ... and around every power of two up to 1024 (thorough: 4096): buffers sized from an estimate overflow there
+    for n in [512usize, 1024, 2048, 4096] {
+        if n > 1024 && tier != "thorough" {
+            continue;
+        }
+        slens.extend(n - 24..=n + 8);
+    }
     for (i, sl) in slens.iter().enumerate() {
         let (a, lp) = avp_for_blocks(rng, 2, false);
         let secret = rng.bytes(*sl);
@@ -643,8 +650,15 @@ pub fn suite_reveal(out: &mut Out, tier: &str, rng: &mut Rng) {
         out.emit(json!({"op": "reveal", "v": gen_avp(rng, 20), "secret": bytes_json(&secret_of(rng)), "rv": bytes_json(&rng.bytes(4))}));
     }
     // every secret length 0..=260 on values of one, two and three blocks (arbitrary octets and crafted valid ones)
-    for sl in 0..=260usize {
-        let blocks = 1 + sl % 3;
+    let mut rlens: Vec<usize> = (0..=260).collect();
+    for n in [512usize, 1024, 2048, 4096] {
+        if n > 1024 && tier != "thorough" {
+            continue;
+        }
+        rlens.extend(n - 24..=n + 8);
+    }
+    for sl in rlens {
+        let blocks = if sl > 260 { 2 } else { 1 + sl % 3 };
         let secret = rng.bytes(sl);
         let t = *rng.pick(&types);
         out.emit(json!({"op": "reveal", "v": {"k": "Hidden", "f": [t, bytes_json(&rng.bytes(16 * blocks))]}, "secret": bytes_json(&secret), "rv": bytes_json(&rng.bytes(4))}));
@@ -1875,6 +1889,30 @@ pub fn suite_history(out: &mut Out, tier: &str, rng: &mut Rng) {
             calls.push(json!({"op": "decode", "in": bytes_json(&w), "opts": [true, true, true], "entry": "validate", "rdr": "slice", "id": 0}));
             let clean = gen_control(rng, 3, 8);
             calls.push(json!({"op": "decode", "in": bytes_json(&enc_control(&clean)), "opts": [true, true, true], "entry": "validate", "rdr": "slice", "id": 0}));
+        }
+        // arguments of one call assembled from what the previous call left in its working buffers: after a hide of
+        // two or more blocks the last MD5 input was `secret || previous cipher block`; the next hide's
+        // `type || secret' || rv'` is made equal to exactly those octets
+        for rep in 0..4u16 {
+            let tt = [7u16, 11, 30, 37][rep as usize % 4];
+            let mut secret1 = vec![(tt >> 8) as u8, tt as u8];
+            secret1.extend(rng.rbytes(1, 10));
+            let rv1 = rng.bytes(4);
+            let nblk = 2 + (rep as usize % 3);
+            let value = rng.bytes(16 * nblk - 2);
+            let a = json!({"k": "HostName", "f": [bytes_json(&value)]});
+            let mut plain = ((6 + value.len()) as u16).to_be_bytes().to_vec();
+            plain.extend_from_slice(&value);
+            let cipher = craft_hidden(7, &plain, &secret1, &rv1);
+            let c = &cipher[16 * (nblk - 2)..16 * (nblk - 1)];          // the second-to-last cipher block
+            let mut secret2 = secret1[2..].to_vec();
+            secret2.extend_from_slice(&c[..12]);
+            let rv2 = c[12..16].to_vec();
+            let kind2 = KINDS.iter().find(|k| k.0 == tt).unwrap().1;
+            let b = json!({"k": kind2, "f": [bytes_json(&rng.rbytes(3, 40))]});
+            calls.push(json!({"op": "hide", "v": a, "secret": bytes_json(&secret1), "rv": bytes_json(&rv1), "lp": [], "ap": bytes_json(&[0u8; 16]), "id": 0}));
+            calls.push(json!({"op": "hide", "v": b, "secret": bytes_json(&secret2), "rv": bytes_json(&rv2), "lp": [], "ap": bytes_json(&[0u8; 16]), "id": 0}));
+            calls.push(json!({"op": "hide_reveal", "v": b, "secret": bytes_json(&secret2), "rv": bytes_json(&rv2), "lp": [], "ap": bytes_json(&[0u8; 16]), "id": 0}));
         }
         // session flows: control messages of every type composed as the RFC prescribes (every optional AVP present,
         // Sequencing Required included) and data messages of every header shape, all under the SAME tunnel / session
